@@ -54,13 +54,28 @@ struct L {   // JSON list builder
 struct Read { std::string proj; Bytes reser; };
 template<class V> static inline Bytes tob(const V& v) { return Bytes(v.begin(), v.end()); }
 
+// both serialization paths of every class are exercised: the bytes form (serialize(header) / deserialize(ptr, size)) and the
+// stream form (serialize(ostream) / deserialize(istream)) are separate code in the library
+template<class F> static inline Bytes via_stream(F f) {
+  std::ostringstream os(std::ios::binary); f(os); const std::string t = os.str(); return Bytes(t.begin(), t.end());
+}
+static inline std::istringstream in_stream(const Bytes& b) { return std::istringstream(std::string(b.begin(), b.end()), std::ios::binary); }
+
 struct Entry {
   std::string name, family, kind;
   std::string hints;                        // JSON object: out-of-band knowledge any reader has (item size, ...)
-  Bytes bytes;                              // image written by the current tree
+  Bytes bytes;                              // image written by the current tree, bytes path
+  Bytes sbytes;                             // image written by the current tree, stream path
   std::string proj;                         // projection of the source object through the public API
-  std::function<Read(const Bytes&)> reader;   // deserialize with the current tree + same projection + re-serialization
+  std::function<Read(const Bytes&, bool)> reader;   // deserialize with the current tree + same projection + re-serialization
 };
+
+// ser(obj, stream) -> image; de(image, stream) -> object; pr(obj) -> projection.  The object is serialized first (some serializers
+// have documented side effects), then projected; the reader closure re-serializes on the path it read from.
+template<class Obj, class Ser, class De, class Pr> static inline void fill(Entry& e, Obj& o, Ser ser, De de, Pr pr) {
+  e.bytes = ser(o, false); e.sbytes = ser(o, true); e.proj = pr(o);
+  e.reader = [ser, de, pr](const Bytes& x, bool st) { auto r = de(x, st); Bytes rs = ser(r, st); return Read{pr(r), rs}; };
+}
 
 static inline Bytes read_file(const std::string& path, bool& ok) {
   std::ifstream f(path, std::ios::binary);
